@@ -695,6 +695,9 @@ def handleLine (tbl : TextTable) (line : String) : Option LineResult :=
           [s!"de:{vt}:{fmt}", if qres == "err" then "de:rejected" else "de:accepted"], true⟩
   | ["dim", form, da, ka, db, kb, e, dres, kres] => handleDim tbl form da ka db kb e dres kres
   | ["acc", form, da, ka, db, kb, same, obs, _label] => handleAcc tbl form da ka db kb same obs
+  | ["absent", _module, _unit, reg, parse] =>
+    some ⟨[if reg == "registry=0" && parse == "parse=0" then .ok
+           else .prop "absent.oracle" "a unit added with unit! appears in the registry or is accepted by FromStr (documented as absent)"], ["absent"], true⟩
   | ["b2", vt, form, _q, _u, a, b, qres, rawres] =>
     match numTy? vt with
     | some N => handleSame N vt form a b qres rawres
